@@ -190,7 +190,7 @@ def bin_path(name, target_dir=None):
     return os.path.join(target_dir or os.path.join(HARNESS, "target"), "release", name)
 
 
-def run_impl(stream, ops_path, out_dir, tag="impl", timeout=None):
+def run_impl(stream, ops_path, out_dir, tag="impl", timeout=None, budget_kill_ok=False):
     """run the implementation side; returns (rc, out_path, oracle failures, stats, leak cases)"""
     outp = os.path.join(out_dir, tag + ".out")
     orp = os.path.join(out_dir, tag + ".oracle")
@@ -204,8 +204,10 @@ def run_impl(stream, ops_path, out_dir, tag="impl", timeout=None):
         try:
             p = sh(cmd, stdin=i, stdout=o, stderr=e, timeout=timeout or stream.get("timeout", 3000))
             rc = p.returncode
+            timed_out = False
         except subprocess.TimeoutExpired:
             rc = -9
+            timed_out = True
     fails = []
     if os.path.exists(orp):
         for l in open(orp, encoding="utf-8", errors="replace"):
@@ -230,7 +232,11 @@ def run_impl(stream, ops_path, out_dir, tag="impl", timeout=None):
         elif "must not be dropped" in l and cur not in seen_leak:
             seen_leak.add(cur)
             fails.append({"line": 0, "case": cur, "sig": "edge-leak", "msg": "manager reported a leaked edge: " + l.strip()[:200]})
-    if rc not in (0, 3):
+    if timed_out and budget_kill_ok:
+        # the orchestrator's own time budget ended the run (search / shrinking): inconclusive, not a
+        # crash; hangs of a single operation are reported by the harness's watchdog itself
+        pass
+    elif rc not in (0, 3):
         tail = open(errp, encoding="utf-8", errors="replace").read()[-600:]
         fails.append({"line": 0, "case": cur, "sig": "crash", "msg": f"harness process ended with status {rc} (abort/crash/timeout); stderr tail: {tail}"})
     return rc, outp, fails, stats
@@ -295,7 +301,7 @@ def still_fails(stream, lines, work, kind, sig):
     p = os.path.join(work, "shrink.ops")
     with open(p, "w") as f:
         f.write("\n".join(lines) + "\n")
-    rc, outp, fails, _ = run_impl(stream, p, work, tag="shrink", timeout=120)
+    rc, outp, fails, _ = run_impl(stream, p, work, tag="shrink", timeout=120, budget_kill_ok=True)
     if kind == "oracle":
         return any(f["sig"] == sig for f in fails)
     rc2, mp = run_model(stream, p, work, tag="shrinkm")
@@ -613,7 +619,7 @@ def search_failing_input(prop, cfg, tier, seed, work, known, res):
                     sh(gen_cmd, stdout=o, stderr=subprocess.DEVNULL, timeout=300)
                 except subprocess.TimeoutExpired:
                     continue
-            rc, implp, fails, _ = run_impl(s, ops_path, sdir, timeout=max(30, budget))
+            rc, implp, fails, _ = run_impl(s, ops_path, sdir, timeout=max(30, budget - (time.time() - t0)), budget_kill_ok=True)
             tried += 1
             fails = [f for f in fails if not match_known(known, prop, f)]
             if fails:
